@@ -18,9 +18,10 @@ from .c09 import IMPORTS
 from .c10 import limit_parts
 
 PROP = "C11"
-THEOREMS = ["C11_tree", "C11_again", "C11_single_leaf", "C11_fragment_inhabited", "C11_tree_with_escaped_mappings", "C11_fragment_included"]
+THEOREMS = ["C11_tree", "C11_again", "C11_single_leaf", "C11_fragment_inhabited", "C11_tree_with_escaped_mappings", "C11_fragment_included",
+            "C11_roundtrip_with_paths", "C11_with_paths_is_what_the_api_builds", "C11_with_paths_includes_literals"]
 FACT_LEMMAS = ["C11Proof / C09Proof table facts (closed computations on the generated tables)", "Tie.tie_build"]
-DEPENDS = ['Py.v', 'Lang.v', 'Defs.v', 'Cond.v', 'Dsl.v', 'Check.v', 'DocSem.v', 'Inst.v', 'Gen/TablesGen.v', 'Gen/CallablesGen.v', 'Gen/SpecGen.v', 'Path.v', 'Cast.v', 'Str.v', 'SpecDefs.v', 'RuleDefs.v', 'Rule.v', 'Spec.v', 'SpecIO.v', 'Eq.v', 'RunSpec.v', 'SpecSpell.v', 'RuleTerms.v', 'Proofs/Tie.v', 'Proofs/PyFacts.v', 'Proofs/C01Proof.v', 'Proofs/C02Proof.v', 'Proofs/RuleProof.v', 'Proofs/C09Proof.v', 'Proofs/C11Proof.v', 'Proofs/C11EscProof.v', 'Properties/C11.v']
+DEPENDS = ['Py.v', 'Lang.v', 'Defs.v', 'Cond.v', 'Dsl.v', 'Check.v', 'DocSem.v', 'Inst.v', 'Gen/TablesGen.v', 'Gen/CallablesGen.v', 'Gen/SpecGen.v', 'Path.v', 'Cast.v', 'Str.v', 'SpecDefs.v', 'RuleDefs.v', 'Rule.v', 'Spec.v', 'SpecIO.v', 'Eq.v', 'RunSpec.v', 'SpecSpell.v', 'RuleTerms.v', 'Proofs/Tie.v', 'Proofs/PyFacts.v', 'Proofs/C01Proof.v', 'Proofs/C02Proof.v', 'Proofs/RuleProof.v', 'Proofs/C09Proof.v', 'Proofs/C11Proof.v', 'Proofs/C11EscProof.v', 'PathSpec.v', 'Proofs/C03Proof.v', 'Proofs/C04Proof.v', 'Proofs/C10Proof.v', 'Proofs/C14Proof.v', 'Proofs/C12Proof.v', 'Proofs/C11PathProof.v', 'Properties/C11.v']
 ASSUMPTIONS = ["Layer P models CPython's operators (pysem)", "json.dumps / json.loads text is outside the model (real JSON text is used by the harness)"]
 
 PATHY = [{"path": 1}, {"path": ["a"]}, {"path.first": ["a", 0]}, {"xpath": True}, {"a": {"path": [1]}}, [{"path": ["a"]}, 2],
@@ -141,7 +142,8 @@ def run(tier, seed, model_ok, spec_ok, replay=None):
             if l.method == "items_contain" and g.r.random() < 0.3:
                 kk = g.r.random()
                 l.kwargs[g.r.choice(["path", "xpath", "path.len", "a", "my_path"])] = \
-                    g.scalar() if kk < 0.4 else ([1] if kk < 0.6 else pathy(g, 2))
+                    g.scalar() if kk < 0.4 else ([1] if kk < 0.55 else (pathy(g, 2) if kk < 0.85 else
+                                                                   normalise_path(limit_parts(pg.path(doc, max_len=2, mods_p=0.4)))))
             if not all(jsonable(a) for a in list(l.args) + list(l.kwargs.values())):
                 ok = False
         for l in nested_leaves(t):
